@@ -389,3 +389,56 @@ REG.methods[('.startswith', 'J')] = j_str_method(_startswith_any)
 REG.methods[('.endswith', 'J')] = j_str_method(m_endswith)
 REG.methods[('.lower', 'J')] = j_str_method(m_lower)
 REG.methods[('.upper', 'J')] = j_str_method(m_upper)
+
+
+# ------------------------------------------------------------------ calls to repository functions: binding by the REAL signature
+def real_sig(src_root, relpath, qualname):
+    import os
+    tree = ast.parse(open(os.path.join(src_root, relpath)).read())
+    return E.real_signature(E.find_def(tree, qualname))
+
+
+def bind_actuals(sig, call, vals, skip_self=False):
+    """Python's own binding rules: positional actuals to formals in order, then keywords, then defaults.
+    sig = ([(name, default_ast, kind)], vararg, kwarg); vals = evaluated positional then keyword actuals.
+    Returns (bound: name -> Val | ('default', ast) , errors: [str])"""
+    formals, vararg, kwarg = sig
+    if skip_self: formals = formals[1:]
+    pos = [f for f in formals if f[2] == 'pos']
+    bound = {}; errors = []
+    npos = len(call.args)
+    for i, v in enumerate(vals[:npos]):
+        if i < len(pos): bound[pos[i][0]] = v
+        elif vararg: bound.setdefault('*' + vararg, []).append(v)
+        else: errors.append(f'too many positional arguments ({npos} > {len(pos)})')
+    for k, v in zip(call.keywords, vals[npos:]):
+        names = [f[0] for f in formals]
+        if k.arg in bound: errors.append(f'multiple values for {k.arg}')
+        elif k.arg in names: bound[k.arg] = v
+        elif kwarg: bound.setdefault('**' + kwarg, {})[k.arg] = v
+        else: errors.append(f'unexpected keyword {k.arg}')
+    for name, default, kind in formals:
+        if name not in bound:
+            if default is None: errors.append(f'missing argument {name}')
+            else: bound[name] = ('default', default)
+    return bound, errors
+
+
+def recording_callee(src_root, relpath, qualname, result=None, skip_self=False, may_raise=()):
+    """handler for a call to a repository function under its own contract: actuals are bound to formals by the callee's real
+    `def` (re-read from source); the binding is appended to the ghost list 'calls' of the path; result(bound) builds the value."""
+    def h(x, e, p, site):
+        sig = real_sig(x.src_root, relpath, qualname)
+        for p1, vs in x.ev_seq(list(e.args) + [k.value for k in e.keywords], p):
+            if isinstance(vs, Exc):
+                yield p1, vs; continue
+            bound, errors = bind_actuals(sig, e, vs, skip_self)
+            for err in errors:
+                x.oblige(f'call({qualname})@{ast.unparse(e)[:50]}: binds to the real signature ({err})', p1.pc, z3.BoolVal(False), p1.exact, 'call-requires')
+            for exn in may_raise:
+                yield p1.fork(), Exc(exn, site)
+            q = p1.fork()
+            rec = {'callee': qualname, 'bound': bound, 'site': site, 'actuals': {ast.unparse(a): None for a in e.args}}
+            q.ghost = dict(q.ghost, calls=list(q.ghost.get('calls', [])) + [rec])
+            yield q, (result(bound, x, q) if result else Val('callres', x=rec))
+    return h
